@@ -625,6 +625,14 @@ func zeroOfSort(sort string, vc *VC) Term {
 		return vc.strLit("")
 	case strings.HasPrefix(sort, "(_ FloatingPoint"):
 		return "(_ +zero 11 53)"
+	case sort == "(Array Int Str)":
+		// cvc5 wants a value (not an uninterpreted constant) under `as const`: use a named all-"" array
+		if !vc.declared["zarr.Str"] {
+			z := vc.strLit("")
+			vc.declare("zarr.Str", sort)
+			vc.axiom(fmt.Sprintf("(forall ((i Int)) (! (= (select zarr.Str i) %s) :pattern ((select zarr.Str i))))", z))
+		}
+		return "zarr.Str"
 	case strings.HasPrefix(sort, "(Array Int "):
 		inner := sort[len("(Array Int ") : len(sort)-1]
 		return fmt.Sprintf("((as const %s) %s)", sort, zeroOfSort(inner, vc))
